@@ -1,3 +1,57 @@
 import LibconfigModel.WF
+import LibconfigModel.Step
+import LibconfigModel.Proofs.C04
+/-
+  C04 — the setting tree stays well-formed under every sequence of API calls.
+  Statements only; helper lemmas live in LibconfigModel/Proofs/C04.lean.
+-/
 namespace Libconfig.C04
+
+def isRead : Op → Bool
+  | .read _ => true
+  | _ => false
+
+/-- `config_init` yields a well-formed configuration. -/
+theorem C04_init : Config.init.WF := init_wf
+
+/-- Every API operation other than a read — with arbitrary arguments, succeeding or
+failing — preserves well-formedness. -/
+theorem C04_step (s : State) (op : Op) (h : s.cfg.WF) (hop : isRead op = false) :
+    (step s op).1.cfg.WF :=
+  step_wf s op h (by rintro src rfl; simp [isRead] at hop)
+
+/-- Every history of such operations from `config_init` ends in a well-formed state. -/
+theorem C04_history (ops : List Op) (hops : ∀ op ∈ ops, isRead op = false) :
+    (run ops).cfg.WF :=
+  run_wf ops (by rintro op hop src rfl; simpa [isRead] using hops _ hop)
+
+/-- The executable check used by the driver's `wf` op decides the proposition. -/
+theorem C04_wfb_iff (c : Config) : c.wfb = true ↔ c.WF := cfg_wfb_iff c
+
+/-! Query agreement: length, element-by-index and member-by-name agree with the actual
+children, in order. -/
+
+theorem C04_length (n : Node) (h : n.LocalWF) : n.length = n.kids.length := length_eq n h
+
+theorem C04_getElem (n : Node) (h : n.LocalWF) (i : Nat) : getElem n i = n.kids[i]? := getElem_eq n h i
+
+theorem C04_getMember (n : Node) (h : n.LocalWF) (hg : n.ty = T_GROUP) (i : Nat) (k : Node)
+    (hk : n.kids[i]? = some k) (nm : Bytes) (hn : k.name = some nm) :
+    getMember n nm = some (i, k) := getMember_eq n h hg i k hk nm hn
+
+theorem C04_getMember_sound (n : Node) (nm : Bytes) (i : Nat) (k : Node)
+    (h : getMember n nm = some (i, k)) : n.ty = T_GROUP ∧ n.kids[i]? = some k ∧ k.name = some nm :=
+  getMember_sound n nm i k h
+
+/-- Non-vacuity: a concrete non-trivial configuration (a group with an int, an array of
+two ints and a list holding a string and a nested group) is well-formed. -/
+def sample : Config :=
+  { root := { ty := T_GROUP, kids := [
+      { name := some [97], ty := T_INT, ival := 1 },
+      { name := some [98], ty := T_ARRAY, kids := [{ ty := T_INT, ival := 1 }, { ty := T_INT, ival := 2 }] },
+      { name := some [99], ty := T_LIST, kids := [{ ty := T_STRING, sval := some [120] },
+          { ty := T_GROUP, kids := [{ name := some [100], ty := T_BOOL, ival := 1 }] }] } ] } }
+
+example : sample.WF := (C04_wfb_iff sample).mp (by decide)
+
 end Libconfig.C04
